@@ -2,7 +2,8 @@
 C04 — batch bookkeeping of the table's control state (no file system involved): the batches of the file parts
 are a prefix of the acknowledged batches, the memory parts hold the rest, one batch each, in order.
 -/
-import Banyan.Lemmas.C04Inv12
+import Banyan.Lemmas.C04Ops
+import Banyan.Lemmas.C04Inv1
 
 namespace Banyan.C04
 
@@ -49,6 +50,12 @@ theorem filter_flatMap_perm (l : List PartG) :
       rw [List.append_assoc]
       exact List.Perm.append_left _ ih
 
+theorem fileBatches_batchT (t : Tbl) (b : Nat) : fileBatches (batchT t b) = fileBatches t := by
+  unfold fileBatches; rw [batchT_parts, List.filter_append]; simp
+
+theorem fileBatches_congr {t t' : Tbl} (h : t'.parts = t.parts) : fileBatches t' = fileBatches t := by
+  unfold fileBatches; rw [h]
+
 /-- a batch is acknowledged -/
 theorem tb_batch {t : Tbl} (h : TB t) (b : Nat) : TB (batchT t b) := by
   have hparts := batchT_parts t b
@@ -88,12 +95,25 @@ theorem tb_all_file {t : Tbl} (hlive : t.liveEpoch ≠ 0) (hnomem : ∀ p ∈ t.
   · intro p hp hmm; rw [hnomem p hp] at hmm; cases hmm
   · intro hl; exact absurd hl hlive
 
-theorem publish_parts (t : Tbl) : (publish t).2.parts = t.parts := rfl
-theorem publish_acked (t : Tbl) : (publish t).2.acked = t.acked := rfl
-theorem publish_live (t : Tbl) : (publish t).2.liveEpoch = t.epoch := rfl
-theorem reap_parts (t : Tbl) : (reap t).2.parts = t.parts := rfl
-theorem reap_acked (t : Tbl) : (reap t).2.acked = t.acked := rfl
-theorem reap_live (t : Tbl) : (reap t).2.liveEpoch = t.liveEpoch := rfl
+theorem fileBatches_all_file_len {t : Tbl} (hnomem : ∀ p ∈ t.parts, p.mem = false)
+    (hall : (t.parts.flatMap (·.batches)).Perm t.acked) : (fileBatches t).length = t.acked.length := by
+  have hf : t.parts.filter (fun p => !p.mem) = t.parts := by
+    rw [List.filter_eq_self]; intro p hp; simp [hnomem p hp]
+  unfold fileBatches; rw [hf]; exact hall.length_eq
+
+/-- without memory parts the file parts hold every acknowledged batch -/
+theorem TB.len_all {t : Tbl} (h : TB t) (hnomem : ∀ p ∈ t.parts, p.mem = false) :
+    (fileBatches t).length = t.acked.length := by
+  have hm : memBatches t = [] := by
+    unfold memBatches
+    have : t.parts.filter (·.mem) = [] := by
+      rw [List.filter_eq_nil_iff]; intro p hp; simp [hnomem p hp]
+    rw [this]; rfl
+  have h1 := h.mem
+  rw [hm] at h1
+  have := List.drop_eq_nil_iff.1 h1.symm
+  have := h.len_le
+  omega
 
 /-- `TB` only looks at parts, acked and liveEpoch -/
 theorem tb_congr {t t' : Tbl} (h : TB t) (h1 : t'.parts = t.parts) (h2 : t'.acked = t.acked)
@@ -164,7 +184,8 @@ theorem nodup_eraseDups_aux2 {α : Type} [DecidableEq α] :
 
 /-- merging chosen file parts keeps the batch bookkeeping -/
 theorem tb_merge {t : Tbl} (h : TB t) (hnd : (t.parts.map (·.id)).Nodup) (sel : List Nat) (hold : Bool) :
-    TB (reap (publish (mergeT1 t sel hold)).2).2 := by
+    TB (reap (publish (mergeT1 t sel hold)).2).2 ∧
+    (fileBatches (reap (publish (mergeT1 t sel hold)).2).2).length = (fileBatches t).length := by
   obtain ⟨chosen, hch⟩ : ∃ chosen, chosen = selectParts (t.parts.filter (fun p => !p.mem)) sel := ⟨_, rfl⟩
   have hchsub : ∀ p ∈ chosen, p ∈ t.parts ∧ p.mem = false := by
     intro p hp
@@ -241,7 +262,7 @@ theorem tb_merge {t : Tbl} (h : TB t) (hnd : (t.parts.map (·.id)).Nodup) (sel :
       exact (hgone p hp.1.1).1 hp.2
   have hlen : (fileBatches (reap (publish (mergeT1 t sel hold)).2).2).length = (fileBatches t).length := by
     rw [hF]; exact hperm.length_eq
-  refine ⟨?_, ?_, ?_, ?_⟩
+  refine ⟨⟨?_, ?_, ?_, ?_⟩, hlen⟩
   · rw [hlen, hack, hF]; exact hperm.trans h.file
   · rw [hM, hlen, hack]; exact h.mem
   · intro p hp hm
